@@ -542,8 +542,10 @@ func mwName(c *Case) string {
 
 func checkPage(m *mon.M, c *Case, page []byte, one *Case) {
 	text := string(page)
-	for field, v := range markersOf(c) {
-		if strings.Contains(text, v) {
+	marks := markersOf(c)
+	for _, field := range []string{"title", "info-title", "spec-url", "asset-url"} {
+		v, has := marks[field]
+		if has && strings.Contains(text, v) {
 			i := strings.Index(text, v)
 			lo := i - 40
 			if lo < 0 {
@@ -1201,7 +1203,7 @@ const batchSize = 100
 
 func run(m *mon.M) {
 	r := m.Rand("standalone")
-	n := m.N(2500, 40000)
+	n := m.N(2500, 60000)
 	for i := 0; i < n; i++ {
 		if i%batchSize == 0 {
 			m.Begin(&batchCase{Batch: &Batch{Seed: m.Seed, Shard: m.Shard, From: i, Count: batchSize}})
@@ -1209,7 +1211,7 @@ func run(m *mon.M) {
 		runCase(m, genStandalone(r))
 	}
 	ra := m.Rand("api")
-	na := m.N(150, 3000)
+	na := m.N(150, 5000)
 	for i := 0; i < na; i++ {
 		c := genAPI(ra)
 		m.Begin(c)
